@@ -1384,6 +1384,64 @@ def foreign_reads(ck, rng, quick, containers, new_creating=()):
                                  {"entry_point": "%s.%s (accessor)" % (r["cls"], r["name"]), "input": {"kind": k.name, "context": [list(e) for e in edits], "what": desc},
                                   "impl_outcome": str(tree_delta(before, after))[:800]})
                     break
+    # ---- ... and from the object's own content in ANOTHER ORDER: wherever an element below the object (or the object's
+    #      element itself) holds two or more children of the same tag (gradient stops, paragraphs, runs, rows, cells, series,
+    #      points ...), those children are reversed in place (each stays in a slot the schema gives that tag), as a document
+    #      whose producer did not sort them would have them; every allowed accessor is then read
+    stats.update(order_pre_states=0, order_reads=0)
+    for k in kinds:
+        if k.anchor is None:
+            continue
+        try:
+            prs = k.build()
+            obj = k.nav(prs)
+            anc = k.anchor(obj)
+            swapped = 0
+            for el in [anc] + [d for d in anc.iterdescendants() if isinstance(d.tag, str)]:
+                groups = {}
+                for ch in el:
+                    if isinstance(ch.tag, str):
+                        groups.setdefault(ch.tag, []).append(ch)
+                for tag, chs in groups.items():
+                    if len(chs) < 2:
+                        continue
+                    slots = [el.index(c) for c in chs]
+                    for c in chs:
+                        el.remove(c)
+                    for pos, c in zip(slots, reversed(chs)):
+                        el.insert(pos, c)
+                    swapped += 1
+            if not swapped:
+                continue
+            obj = k.nav(prs)
+            part = c9.part_of(k, prs, obj)
+            if part is None:
+                continue
+            rows = [r for r in (table.for_class(type(obj)) or []) if r["kind"] in ("property", "lazyproperty")
+                    and (table.allowed_static(r) or r["sig"] in new_creating)]
+        except Exception:  # noqa
+            continue
+        stats["order_pre_states"] += 1
+        ck.count(("order-read", k.name), True, "foreign-read")
+        for r in rows:
+            before = py_strip(pytree(part._element), containers)
+            try:
+                v = getattr(obj, r["name"])
+                if hasattr(v, "__len__") and hasattr(v, "__getitem__") and not isinstance(v, (str, bytes)):
+                    for i in range(min(len(v), 4)):     # a collection handed back is walked as a reader would walk it
+                        v[i]
+            except Exception:  # noqa
+                continue
+            stats["order_reads"] += 1
+            after = py_strip(pytree(part._element), containers)
+            if before != after:
+                ck.violation("foreign-read:%s.%s" % (r["cls"], r["name"]),
+                             "reading %s.%s changed the document (more than empty containers) when the repeated children below the object "
+                             "are in another order than python-pptx writes them (%d groups reversed): %s"
+                             % (r["cls"], r["name"], swapped, str(tree_delta(before, after))[:400]),
+                             {"entry_point": "%s.%s (accessor)" % (r["cls"], r["name"]), "input": {"kind": k.name, "context": "repeated children reversed"},
+                              "impl_outcome": str(tree_delta(before, after))[:800]})
+                break
     return stats
 
 
